@@ -82,6 +82,8 @@ func runMutant(m Mutant) mutantResult {
 		have[a.Name] = true
 		if a.Status != "proved" {
 			res.Failing = append(res.Failing, a.Name)
+		} else if a.vacuousParts() > spec.Vacuous[a.Name] {
+			res.Failing = append(res.Failing, a.Name+" (became vacuous)")
 		}
 	}
 	for _, name := range spec.Expect {
